@@ -182,3 +182,82 @@ def func_ref_name(v):
     if isinstance(v, FuncRef):
         return v.qname
     return None
+
+
+# ---- rejection guards: `if G: raise ...` and `assert C`
+def reject_guards(func):
+    """Yield (guard_expr, negated, node): the condition under which the function refuses its input.
+    For `if G: raise` negated=False (rejects when G); for `assert C` negated=True (rejects when not C)."""
+    for n in walk_no_nested(func):
+        if isinstance(n, ast.If) and n.body and isinstance(n.body[0], ast.Raise):
+            yield n.test, False, n
+        elif isinstance(n, ast.Assert):
+            yield n.test, True, n
+
+
+def linear_guard(ix, modname, test, negated, env_names=None):
+    """Decompose a comparison guard into (linear form Rat L, op, constant c) meaning 'rejects when L op c',
+    folding module constants.  Returns a list (conjunction for chains) or None."""
+    from .. import alg
+    from ..norm import _NEG
+    fold = fold_for(ix, modname)
+    out = []
+    if isinstance(test, ast.Compare):
+        items = list(zip([test.left] + test.comparators[:-1], test.ops, test.comparators))
+        # a chain a<b<c accepts when all hold; rejecting condition of `assert chain` is any failing link
+        for a, op, b in items:
+            env = alg.Env(fold=fold, funcs=('len',))
+            try:
+                L = env.conv(a) - env.conv(b)
+            except alg.NotAlgebraic:
+                return None
+            optype = type(op)
+            if negated:
+                if optype not in _NEG:
+                    return None
+                optype = _NEG[optype]
+            # L op 0 ; move the constant part to the right-hand side
+            c = -L.n.t.get((), 0) if L.d.is_const() else 0
+            if not L.d.is_const():
+                return None
+            Lc = alg.Rat(L.n + alg.Poly.const(c))
+            out.append((Lc, optype, c))
+        if not negated and len(items) > 1:
+            return None     # `if a < x < b: raise` is a conjunction: not handled
+        return out
+    return None
+
+
+def rejects_interval(optype, c):
+    """The set {x : x op c} as (lo, hi, lo_open, hi_open, complement_of_point)"""
+    inf = float('inf')
+    if optype is ast.Lt:
+        return ('range', -inf, c, True)      # x < c
+    if optype is ast.LtE:
+        return ('range', -inf, c, False)     # x <= c
+    if optype is ast.Gt:
+        return ('range', c, inf, True)
+    if optype is ast.GtE:
+        return ('range', c, inf, False)
+    if optype is ast.NotEq:
+        return ('allbut', c)
+    if optype is ast.Eq:
+        return ('point', c)
+    return None
+
+
+def interval_disjoint(rej, allowed):
+    """allowed = (lo, hi) closed interval of conformant values; True if the rejecting set misses it."""
+    lo, hi = allowed
+    if rej is None:
+        return None
+    if rej[0] == 'point':
+        return not (lo <= rej[1] <= hi)
+    if rej[0] == 'allbut':
+        return lo == hi == rej[1]
+    _, a, b, strict = rej
+    if a == float('-inf'):
+        # x < b  or x <= b
+        return lo >= b if strict else lo > b
+    # x > a or x >= a
+    return hi <= a if strict else hi < a
